@@ -22,11 +22,18 @@ ERROR_TYPE = {'#NULL!': 1, '#DIV/0!': 2, '#VALUE!': 3, '#REF!': 4, '#NAME?': 5, 
 
 def leaf(env, e, inp, key, kind, varname, variables):
     """returns (text, expected error code or None)"""
+    if kind == 'okarr':
+        return '{1,2}', None
     if kind == 'ok':
         if env.symbolic:
             inp[key] = e.fresh_int(key, -99999, 99999)
         variables[varname] = inp[key]
         return varname, None
+    if kind == 'var9':
+        if env.symbolic:
+            inp[key] = CODES[e.choose(len(CODES))]
+        variables[varname] = env.error_by_code(inp[key])
+        return varname, inp[key]
     if kind == 'var':
         if env.symbolic:
             inp[key] = ERR8[e.choose(len(ERR8))]
@@ -66,6 +73,11 @@ class Binary(_Base):
                     out.append({'op': op, 'l': l, 'r': r})
         for l in kinds:
             out.append({'op': 'neg', 'l': l, 'r': None})
+        # the non-error operand is an array: the error still is the result
+        for op in OPS:
+            for k in ('var', 'div0', 'raise'):
+                out.append({'op': op, 'l': 'okarr', 'r': k})
+                out.append({'op': op, 'l': k, 'r': 'okarr'})
         return out
 
     def run(self, env, inp, p):
@@ -144,7 +156,7 @@ class Trapping(_Base):
 
     def cases(self, tier):
         out = []
-        kinds = ['var', 'div0', 'na', 'absx', 'raise', 'ok']
+        kinds = ['var9', 'div0', 'na', 'absx', 'raise', 'ok']
         for k in kinds:
             out.append({'kind': k, 'wrap': None})
             if k != 'ok':
@@ -191,5 +203,5 @@ class Trapping(_Base):
         c3 = ok_result(iserror) and iserror['result'] is True
         c4 = ok_result(iserr) and iserr['result'] is (code != '#N/A')
         c5 = ok_result(isna) and isna['result'] is (code == '#N/A')
-        c6 = ok_result(etype) and etype['result'] == ERROR_TYPE[code]
+        c6 = True if code == '#ERROR!' else (ok_result(etype) and etype['result'] == ERROR_TYPE[code])
         return And(c1, c2, c3, c4, c5, c6)
